@@ -1279,18 +1279,12 @@ class Bits:
         return p
 
     def _find_lsb0(self, bs: Bits, start: int, end: int, bytealigned: bool) -> Union[Tuple[int], Tuple[()]]:
-        # A forward find in lsb0 is very like a reverse find in msb0.
+        # A forward find in lsb0 is the first result of a findall in lsb0.
         assert start <= end
         assert bitstring.options.lsb0
-
-        new_slice = bitstring.bitstore.offset_slice_indices_lsb0(slice(start, end, None), len(self))
-        msb0_start, msb0_end = self._validate_slice(new_slice.start, new_slice.stop)
-        p = self._rfind_msb0(bs, msb0_start, msb0_end, bytealigned)
-
-        if p:
-            return (len(self) - p[0] - len(bs),)
-        else:
-            return ()
+        for p in self._findall_lsb0(bs, start, end, 1, bytealigned):
+            return (p,)
+        return ()
 
     def _find_msb0(self, bs: Bits, start: int, end: int, bytealigned: bool) -> Union[Tuple[int], Tuple[()]]:
         """Find first occurrence of a binary string."""
@@ -1342,29 +1336,17 @@ class Bits:
         new_slice = bitstring.bitstore.offset_slice_indices_lsb0(slice(start, end, None), len(self))
         msb0_start, msb0_end = self._validate_slice(new_slice.start, new_slice.stop)
 
-        # Search chunks starting near the end and then moving back.
+        # Increasing lsb0 positions are decreasing msb0 positions, so search from the right.
+        # Byte alignment is a property of the lsb0 position.
         c = 0
-        increment = max(8192, len(bs) * 80)
-        buffersize = min(increment + len(bs), msb0_end - msb0_start)
-        pos = max(msb0_start, msb0_end - buffersize)
-        while True:
-            found = list(self._findall_msb0(bs, start=pos, end=pos + buffersize, count=None, bytealigned=False))
-            if not found:
-                if pos == msb0_start:
-                    return
-                pos = max(msb0_start, pos - increment)
-                continue
-            while found:
-                if count is not None and c >= count:
-                    return
-                c += 1
-                lsb0_pos = len(self) - found.pop() - len(bs)
-                if not bytealigned or lsb0_pos % 8 == 0:
-                    yield lsb0_pos
-
-            pos = max(msb0_start, pos - increment)
-            if pos == msb0_start:
+        for msb0_pos in self._bitstore.rfindall_msb0(bs._bitstore, msb0_start, msb0_end, False):
+            if count is not None and c >= count:
                 return
+            lsb0_pos = len(self) - msb0_pos - len(bs)
+            if bytealigned and lsb0_pos % 8 != 0:
+                continue
+            c += 1
+            yield lsb0_pos
 
     def rfind(self, bs: BitsType, /, start: Optional[int] = None, end: Optional[int] = None,
               bytealigned: Optional[bool] = None) -> Union[Tuple[int], Tuple[()]]:
@@ -1399,17 +1381,17 @@ class Bits:
         return () if p == -1 else (p,)
 
     def _rfind_lsb0(self, bs: Bits, start: int, end: int, bytealigned: bool) -> Union[Tuple[int], Tuple[()]]:
-        # A reverse find in lsb0 is very like a forward find in msb0.
+        # A reverse find in lsb0 is very like a forward find in msb0, but byte alignment is a property of the lsb0 position.
         assert start <= end
         assert bitstring.options.lsb0
         new_slice = bitstring.bitstore.offset_slice_indices_lsb0(slice(start, end, None), len(self))
         msb0_start, msb0_end = self._validate_slice(new_slice.start, new_slice.stop)
 
-        p = self._find_msb0(bs, msb0_start, msb0_end, bytealigned)
-        if p:
-            return (len(self) - p[0] - len(bs),)
-        else:
-            return ()
+        for msb0_pos in self._bitstore.findall_msb0(bs._bitstore, msb0_start, msb0_end, False):
+            lsb0_pos = len(self) - msb0_pos - len(bs)
+            if not bytealigned or lsb0_pos % 8 == 0:
+                return (lsb0_pos,)
+        return ()
 
     def cut(self, bits: int, start: Optional[int] = None, end: Optional[int] = None,
             count: Optional[int] = None) -> Iterator[Bits]:
